@@ -73,10 +73,14 @@ struct NAME \
 { \
     using srv_t   = d7_server< Q >; \
     using queue_t = bluetoe::details::write_queue< bluetoe::shared_write_queue< Q > >; \
-    struct conn_t : srv_t::connection_data { \
+    /* the connection type is built exactly like link_layer builds it: server::channel_data_t< PreviousData > = notification \
+       queue (with PreviousData mixed in) first, connection_data second. The position of the connection_data sub object \
+       matters: the write queue identifies its owner by address */ \
+    struct sec_t { \
         bluetoe::connection_security_attributes sec; \
         bluetoe::connection_security_attributes security_attributes() const { return sec; } \
     }; \
+    struct conn_t : srv_t::template channel_data_t< sec_t > {}; \
     static srv_t  server; \
     static conn_t conn_a, conn_b; \
     static srv_t  s_server;                 /* snapshot for self-composition */ \
